@@ -32,18 +32,18 @@ theorem ndim_pos_of_zero_mem (a : Arr α) (hz : 0 ∈ a.shape) : 1 ≤ a.ndim :=
 theorem arraySplit_empty (a : Arr α) (zero : α) (parts : Nat) (axis : Option Nat) (he : a.isEmpty = true) :
     a.arraySplit zero parts axis =
       if parts = 0 then .err .ParameterError
-      else if (match axis with | some ax => decide (ax ≥ a.ndim) | none => false) then .err .AxisOutOfBounds
+      else if decide (axis.getD 0 ≥ a.ndim) then .err .AxisOutOfBounds
       else .ok [a] := by
-  cases axis <;> (unfold Arr.arraySplit; simp only [he, if_true])
+  unfold Arr.arraySplit; simp only [he, if_true]
 
 /-- `split` on an array without elements: an axis outside the rank refused first, then zero parts, then `[a]`
 (the divisibility of the axis length by the part count is not examined) -/
 theorem split_empty (a : Arr α) (zero : α) (parts : Nat) (axis : Option Nat) (he : a.isEmpty = true) :
     a.split zero parts axis =
-      if (match axis with | some ax => decide (ax ≥ a.ndim) | none => false) then .err .AxisOutOfBounds
+      if decide (axis.getD 0 ≥ a.ndim) then .err .AxisOutOfBounds
       else if parts = 0 then .err .ParameterError
       else .ok [a] := by
-  cases axis <;> (unfold Arr.split; simp only [he, if_true])
+  unfold Arr.split; simp only [he, if_true]
 
 /-- `split_axis` on an array without elements -/
 theorem splitAxis_empty (a : Arr α) (zero : α) (axis : Nat) (he : a.isEmpty = true) :
@@ -62,10 +62,10 @@ theorem hsplit_empty (a : Arr α) (zero : α) (parts : Nat) (he : a.isEmpty = tr
     by_cases h1 : a.ndim = 1
     · rw [if_pos h1, split_empty a zero parts _ he]
       have : ¬ (decide (0 ≥ a.ndim) = true) := by simp; omega
-      simp only [this, hp, Bool.false_eq_true, if_false]
+      simp only [Option.getD_some, this, hp, Bool.false_eq_true, if_false]
     · rw [if_neg h1, split_empty a zero parts _ he]
       have : ¬ (decide (1 ≥ a.ndim) = true) := by simp; omega
-      simp only [this, hp, Bool.false_eq_true, if_false]
+      simp only [Option.getD_some, this, hp, Bool.false_eq_true, if_false]
 
 /-- `vsplit` on an array without elements -/
 theorem vsplit_empty (a : Arr α) (zero : α) (parts : Nat) (he : a.isEmpty = true) :
@@ -80,7 +80,7 @@ theorem vsplit_empty (a : Arr α) (zero : α) (parts : Nat) (he : a.isEmpty = tr
     · rw [if_pos hp, if_pos hp]
     · rw [if_neg hp, if_neg hp, split_empty a zero parts _ he]
       have : ¬ (decide (0 ≥ a.ndim) = true) := by simp; omega
-      simp only [this, hp, Bool.false_eq_true, if_false]
+      simp only [Option.getD_some, this, hp, Bool.false_eq_true, if_false]
 
 /-- `dsplit` on an array without elements -/
 theorem dsplit_empty (a : Arr α) (zero : α) (parts : Nat) (he : a.isEmpty = true) :
@@ -95,7 +95,7 @@ theorem dsplit_empty (a : Arr α) (zero : α) (parts : Nat) (he : a.isEmpty = tr
     · rw [if_pos hp, if_pos hp]
     · rw [if_neg hp, if_neg hp, split_empty a zero parts _ he]
       have : ¬ (decide (2 ≥ a.ndim) = true) := by simp; omega
-      simp only [this, hp, Bool.false_eq_true, if_false]
+      simp only [Option.getD_some, this, hp, Bool.false_eq_true, if_false]
 
 /-- joining the single piece `[a]` along an axis inside the rank gives `a` back -/
 theorem concatenate_singleton (a : Arr α) (zero : α) (k : Nat) (hk : k < a.ndim) :
